@@ -81,7 +81,7 @@ def gen_cases(tier, seed):
     cases = []
     for k, op in enumerate(("momentum", "angmom")):
         cs = twoindex.gen_cases(tier, seed, salt=80 + k, lmax_block=4, lmax_basis=3,
-                                nb_quick=10, nb_thorough=60, block_reps_thorough=2)
+                                nb_quick=30, nb_thorough=200, block_reps_thorough=3)
         for c in cs:
             c["op"] = op
         cases += cs
@@ -91,7 +91,8 @@ def gen_cases(tier, seed):
     nperm = 2 if tier == "quick" else 8
     for _ in range(nperm):
         for n in (2, 3):
-            basis = [gen_shell(rng, lmax=2, kmax=2, mmax=2) for _ in range(n)]
+            from lib import gen_basis
+            basis = gen_basis(rng, n, lmax=2, kmax=2, mmax=2)
             for perm in itertools.permutations(range(n)):
                 for op in ("momentum", "angmom"):
                     cases.append({"kind": "basis", "op": op, "T": None,
